@@ -10,13 +10,18 @@ inductive Op where
   | select (cls : List Clause)
   | rselect (cls : List Clause)
   | close (c : Nat)
-  | sleep0
+  | sleep (ms : Nat)
+  | cancel (g : Nat)
+  /-- `(ev/with-deadline ms/1000 <the next n operations>)` -/
+  | deadline (ms n : Nat)
   deriving Repr
 
 structure Prog where
   limits : List Nat
   fibers : List (List Op)   -- fiber 0 is the main fiber: it first spawns 1..n-1 in order, then runs its own ops
   rng : List Nat            -- outputs of janet_rng_u32(&janet_vm.ev_rng), in order
+  clockStart : Nat := 0     -- virtual clock of the harness: value before the first read, and step per read
+  clockStep : Nat := 1
 
 /-! ### canonical text (identical to the harness) -/
 
@@ -28,6 +33,9 @@ def showVal : Val → String
   | .take c x => s!"take:{c}:{x}"
   | .close c => s!"close:{c}"
   | .errClosed => "err-closed"
+  | .errCancel => "err-cancel"
+  | .errDeadline => "err-deadline"
+  | .errTimeout => "err-timeout"
 
 def showMode : Mode → String
   | .read => "R" | .write => "W" | .choiceRead => "r" | .choiceWrite => "w"
@@ -39,15 +47,19 @@ def commaSep (xs : List String) : String := String.intercalate "," xs
 def showTask (t : Task) : String :=
   s!"{t.fiber}:{showVal t.value}:{match t.sig with | .ok => "ok" | .error => "sig"}:{t.expected}"
 
+def showTimer (w : World) (t : Timer) : String :=
+  s!"{t.fiber}.{t.sched}@{t.when}" ++ (match t.curr with | some s => if w.scopes s then "+" else "-" | none => "")
+    ++ (if t.isError then "!" else "")
+
 def showState (w : World) (nch nfib : Nat) : String :=
   let chans := (List.range nch).map fun c =>
     let ch := w.chans c
     s!"|c{c} i={commaSep (ch.items.map toString)} r={commaSep (ch.readPending.map showPending)} w={commaSep (ch.writePending.map showPending)} X={if ch.closed then 1 else 0}"
-  String.join chans ++ s!"|q={commaSep (w.runq.map showTask)}|t={commaSep (w.timers.map fun t => s!"{t.fiber}.{t.sched}")}|s={commaSep ((List.range nfib).map fun f => toString (w.fibers f).sched)}"
+  String.join chans ++ s!"|q={commaSep (w.runq.map showTask)}|t={commaSep (w.timers.map (showTimer w))}|s={commaSep ((List.range nfib).map fun f => toString (w.fibers f).sched)}"
 
-def showStatus (fb : Fiber) : String :=
+def showStatus (fb : Fiber) (err : Val) : String :=
   match fb.status with
-  | .new => "new" | .pending => "suspended" | .alive => "alive" | .dead => "dead" | .error => "error:err-closed"
+  | .new => "new" | .pending => "suspended" | .alive => "alive" | .dead => "dead" | .error => "error:" ++ showVal err
 
 /-! ### fisher_yates_args -/
 
@@ -75,6 +87,10 @@ structure Exec where
   waiting : Nat → Option Nat := fun _ => none
   rng : List Nat
   spawned : Bool := false
+  /-- open ev/with-deadline scopes per fiber: (scope id, index of the first operation after the body) -/
+  scopes : Nat → List (Nat × Nat) := fun _ => []
+  /-- the error a fiber died with -/
+  errs : Nat → Val := fun _ => .errClosed
   log : String := ""
   /-- actions performed, newest first (lets tests replay the run through `Ev.run`) -/
   acts : List Action := []
@@ -90,17 +106,36 @@ def Exec.say (e : Exec) (s : String) : Exec := { e with log := e.log ++ s }
 
 def setNat {α : Type} (m : Nat → α) (k : Nat) (v : α) : Nat → α := fun i => if i = k then v else m i
 
+/-- the bodies ending at operation index `i` of fiber `f` are done: their coroutines are dead -/
+def Exec.closeScopes (e : Exec) (f i : Nat) (all : Bool) : Exec :=
+  let (done, open_) := (e.scopes f).partition (fun s => all || s.2 ≤ i)
+  let e := done.foldl (fun e s => (e.doStep (.scopeEnd s.1)).1) e
+  { e with scopes := setNat e.scopes f open_ }
+
+/-- the fiber's code raised `v`: every open body coroutine is finished with it, then the task itself -/
+def Exec.die (e : Exec) (f : Nat) (v : Val) : Exec :=
+  let e := e.closeScopes f 0 true
+  let e := (e.doStep (.finish true)).1
+  { e with errs := setNat e.errs f v }
+
 /-- run fiber `f` (the current root fiber) until it suspends or finishes -/
 def Exec.runFiber (e : Exec) (f : Nat) : Nat → Exec
   | 0 => e
   | fuel + 1 =>
     let ops := e.prog.fibers.getD f []
     let i := e.pc f
+    let e := e.closeScopes f i false
     match ops[i]? with
     | none => (e.doStep (.finish false)).1
     | some op =>
       let e := e.say s!";B {f} {i}{showState e.w e.nch e.nfib}"
       let e := { e with pc := setNat e.pc f (i + 1) }
+      match op with
+      | .deadline ms n =>
+        let sid := f * 100 + i
+        let e := (e.doStep (.deadline sid ms)).1
+        ({ e with scopes := setNat e.scopes f ((sid, i + 1 + n) :: e.scopes f) }).runFiber f fuel
+      | _ =>
       let (act, e) : Action × Exec :=
         match op with
         | .give c x => (.give c x, e)
@@ -110,11 +145,14 @@ def Exec.runFiber (e : Exec) (f : Nat) : Nat → Exec
           let (cls', rng') := fisherYates cls.length cls e.rng
           (.select cls', { e with rng := rng' })
         | .close c => (.close c, e)
-        | .sleep0 => (.sleep0, e)
+        | .sleep ms => (.sleep ms, e)
+        | .cancel g => (.cancel g, e)
+        | .deadline _ _ => (.runTask, e)
       let (e, o) := e.doStep act
       match o with
       | .ret v => (e.say s!";E {f} {i} {showVal v}").runFiber f fuel
       | .await => { e with waiting := setNat e.waiting f (some i) }
+      | .err v => { (e.closeScopes f 0 true) with errs := setNat e.errs f v }
       | _ => e
 
 /-- run phase of janet_loop1: `while (spawn.head != spawn.tail)` -/
@@ -135,6 +173,7 @@ def Exec.runPhase (e : Exec) : Nat → Exec
           | some i => { e.say s!";E {f} {i} {showVal v}" with waiting := setNat e.waiting f none }
           | none => e
         (e.runFiber f 64).runPhase fuel
+      | .resumedErr f v => ({ (e.die f v) with waiting := setNat e.waiting f none }).runPhase fuel
       | _ => e.runPhase fuel
 
 /-- `while (!janet_loop_done()) janet_loop1();` with the harness's idle detection in the poll phase -/
@@ -152,7 +191,7 @@ def Exec.loop (e : Exec) (first : Bool) : Nat → Exec × String
       else e.loop false fuel
 
 def Prog.start (cfg : Cfg) (p : Prog) : Exec :=
-  let w := World.init (fun c => p.limits.getD c 0)
+  let w := { World.init (fun c => p.limits.getD c 0) with clock := p.clockStart, clockStep := p.clockStep }
   -- the harness creates the main fiber and calls janet_schedule(main, nil) from outside the loop
   let w := schedule w 0 .nil
   { w := w, cfg := cfg, prog := p, rng := p.rng }
@@ -162,7 +201,7 @@ def Prog.exec (cfg : Cfg) (p : Prog) : Exec × String := (p.start cfg).loop true
 /-- verdict and log, as printed by the harness -/
 def Prog.render (cfg : Cfg) (p : Prog) : String :=
   let (e, verdict) := p.exec cfg
-  let st := commaSep ((List.range e.nfib).map fun f => showStatus (e.w.fibers f))
+  let st := commaSep ((List.range e.nfib).map fun f => showStatus (e.w.fibers f) (e.errs f))
   s!"{verdict} {e.log};F{showState e.w e.nch e.nfib}|st={st}|lc={e.w.listeners}"
 
 end JanetModel.Ev
